@@ -8,6 +8,12 @@ CHECKS = {
  "C18": dict(level="exploration", technique="exhaustive enumeration of the complete (mathvariant value x table character x token kind) product against the Unicode Character Database",
              text="Complete enumeration of the finite mapping domain through the public API (set_mathml), every image compared with the UCD name/decomposition tables; injectivity checked per style. Exhaustive, so this is a decision for the table, not a sample.",
              note="Trusts python's unicodedata as the statement of what Unicode assigns; tokens are tested as the only child of <math> and in 4-character windows.", design="§4 C18"),
+ "C17": dict(level="exploration", technique="exhaustive enumeration of the entity table and of all single/pairwise surface rewrites of a bounded term corpus, differential oracle against the plain spelling",
+             text="Every one of the 2125 entity names x 4 contexts, and every single and pairwise combination of 13 XML surface rewrites over all spine terms of the grammar to depth 2, executed against the real library; canonical MathML, speech and braille must equal those of the plain spelling. Exhaustive over the entity table; bounded-exhaustive over rewrites.",
+             note="Expected characters come from python html.entities (HTML5), accepting the W3C-2007 leading blank before a combining mark; generated id prefixes are normalised.", design="§4 C17"),
+ "C16": dict(level="exploration", technique="exhaustive enumeration of the locale number grammar x token splittings x contexts x locales, differential oracle against the single-token spelling plus a reference number grammar",
+             text="All numbers of the bounded locale grammar, every separator-as-own-token spelling (each as mo or mtext), 11 contexts, 4 locales, plus 25 near-miss sequences; canonical MathML (thorough: speech and braille) of the split spelling must equal the single-<mn> spelling; merged tokens must satisfy the harness's own number grammar.",
+             note="Trailing-mark numbers at the very end of an expression are excluded (indistinguishable from sentence punctuation, and the statement lists both readings); comma numbers directly inside fences get only the negative check, as the statement says.", design="§4 C16"),
 }
 PENDING = {}
 
